@@ -18,7 +18,8 @@ import (
 func init() {
 	register(&RuleSet{
 		ID: "C06",
-		Explanation: "R13 GoldenMeasurement stores Digest, ClSpec and Commit on every path to a successful return (no condition on the value decides whether it is signed). " +
+		Explanation: "R14 AllSupportedVmsaCounts is used in package sev only on the edge LaunchVmsas == 0. " +
+			"R13 GoldenMeasurement stores Digest, ClSpec and Commit on every path to a successful return (no condition on the value decides whether it is signed). " +
 			"Closure S = repo functions reachable from endorse.GoldenMeasurement and endorse.SignDoc. " +
 			"R1 error discipline: every call in S to a repo function (or proto/prototext (Un)Marshal) that returns an error has that error consumed (extracted and used); accepted infallible idioms are recognised structurally (writes to a *bytes.Buffer; fixed-width codec given an array slice or constant-width slice) and one named suppression. " +
 			"R2 use after check: a value returned together with an error is used only where that error is known nil (dominating branch), or returned together with it. " +
@@ -931,6 +932,72 @@ func runC06(c *Ctx) {
 			}
 		}
 		c.S.Floor("R10", "flag-guarded loads of endorse.Context fields in package cmd", 1, nG)
+	}
+
+	// ---- R14: a named VMSA count is the count measured ----
+	// The table of all supported counts stands in for the request only when the request names no count: every use of
+	// AllSupportedVmsaCounts in package sev (returned, merged into a φ, ranged over) happens on the edge
+	// "LaunchVmsas == 0". Any other predicate in that place (the count is not in the table, the count is large …)
+	// replaces a count the caller named by fifteen others, and the signed document has no entry for it.
+	{
+		sevPkg := repoPath("sev")
+		isZeroTest := func(cf condFact) bool {
+			bo, ok := cf.Cond.(*ssa.BinOp)
+			if !ok || (bo.Op != token.EQL && bo.Op != token.NEQ) {
+				return false
+			}
+			k, isK := bo.Y.(*ssa.Const)
+			if !isK || !isZeroIntConst(k) || !flow.IsFieldLoad(bo.X, sevPkg, "SnpEndorsementRequest", "LaunchVmsas") {
+				return false
+			}
+			return (bo.Op == token.EQL) == cf.Val
+		}
+		onZeroEdge := func(pred, to *ssa.BasicBlock) bool {
+			for _, cf := range dominatingConds(pred) {
+				if isZeroTest(cf) {
+					return true
+				}
+			}
+			if iff, ok := pred.Instrs[len(pred.Instrs)-1].(*ssa.If); ok && to != nil {
+				for i, sb := range pred.Succs {
+					if sb == to && isZeroTest(condFact{iff.Cond, i == 0, pred}) {
+						return true
+					}
+				}
+			}
+			return false
+		}
+		nUse := 0
+		for _, f := range c.P.RepoFunctions() {
+			if load.RelPkg(f) != "sev" || c.isTestFunc(f) {
+				continue
+			}
+			for _, b := range f.Blocks {
+				for _, in := range b.Instrs {
+					ld, ok := in.(*ssa.UnOp)
+					if !ok || ld.Op != token.MUL || !isGlobalNamed(ld.X, sevPkg, "AllSupportedVmsaCounts") {
+						continue
+					}
+					for _, u := range nonDebugRefs(ld) {
+						nUse++
+						okU := false
+						switch x := u.(type) {
+						case *ssa.Phi:
+							okU = true
+							for i, e := range x.Edges {
+								if e == ssa.Value(ld) && !onZeroEdge(x.Block().Preds[i], x.Block()) {
+									okU = false
+								}
+							}
+						default:
+							okU = onZeroEdge(u.Block(), nil)
+						}
+						c.S.Check(okU, "R14", load.FuncName(f)+":all supported counts only for an unnamed count", c.pos(u.Pos()), "used on the edge LaunchVmsas == 0", "the table of all supported VMSA counts is used on a path that is not the edge `LaunchVmsas == 0`: a count the request names can be replaced by the table, and the signed document then has no measurement for it")
+					}
+				}
+			}
+		}
+		c.S.Floor("R14", "uses of AllSupportedVmsaCounts in package sev", 1, nUse)
 	}
 
 	// ---- R13: what the request names is signed whatever its shape ----
